@@ -96,9 +96,9 @@ func genC08(t *rapid.T) c8Case {
 			s.Op = "corrupt"
 			s.How = rapid.SampledFrom(c8Corruptions).Draw(t, "how")
 		case 18:
-			s.Op = "symlink"
+			s.Op = rapid.SampledFrom([]string{"symlink", "rmsymlink"}).Draw(t, "symop")
 		default:
-			s.Op = "rmsymlink"
+			s.Op = rapid.SampledFrom([]string{"addpkg", "addpkg", "delpkg"}).Draw(t, "pkgop")
 		}
 		s.P = rapid.IntRange(0, 3).Draw(t, "p")
 		s.Arg = rapid.IntRange(0, 200).Draw(t, "arg")
@@ -176,6 +176,45 @@ type c8World struct {
 	c    *c8Case
 	dir  string
 	pkgs []*modspec.Pkg
+	// extras: packages added during the history (directories below the module root), imported by the first package only
+	extras []string
+}
+
+type c8Loaded struct {
+	path string // import path
+	dir  string // directory on disk
+	pkg  *modspec.Pkg
+}
+
+func (w *c8World) writeExtraImports() {
+	first := w.pkgs[0]
+	fn := filepath.Join(w.pkgDir(first), "imports_extra.go")
+	if len(w.extras) == 0 {
+		_ = os.Remove(fn)
+		return
+	}
+	var b strings.Builder
+	fmt.Fprintf(&b, "package %s\n\nimport (\n", first.Name)
+	for _, e := range w.extras {
+		fmt.Fprintf(&b, "\t_ %q\n", w.c.Mod.Path+"/"+e)
+	}
+	b.WriteString(")\n")
+	_ = os.WriteFile(fn, []byte(b.String()), 0o644)
+}
+
+// loaded lists the local packages a run from the given entry loads, sorted by import path
+func (w *c8World) loaded(entry *modspec.Pkg) []c8Loaded {
+	var out []c8Loaded
+	for _, p := range w.closure(entry) {
+		out = append(out, c8Loaded{w.c.Mod.PkgPath(p), w.pkgDir(p), p})
+	}
+	if entry == w.pkgs[0] {
+		for _, e := range w.extras {
+			out = append(out, c8Loaded{w.c.Mod.Path + "/" + e, filepath.Join(w.dir, e), nil})
+		}
+	}
+	sort.Slice(out, func(i, j int) bool { return out[i].path < out[j].path })
+	return out
 }
 
 func (w *c8World) pkg(i int) *modspec.Pkg { return w.pkgs[i%len(w.pkgs)] }
@@ -232,7 +271,7 @@ func oracleC08(c c8Case) error {
 			all = false
 			entryPkg = w.pkg(st.P)
 		}
-		loaded := w.closure(entryPkg)
+		loaded := w.loaded(entryPkg)
 		// model: what is recorded, what the directories hash to at load time
 		var recorded map[string]string
 		sumBefore, sumErr := os.ReadFile(sumPath)
@@ -242,14 +281,14 @@ func oracleC08(c c8Case) error {
 		hashes := map[string]string{}
 		hashable := map[string]bool{}
 		for _, p := range loaded {
-			h, ok := dirHash(w.pkgDir(p))
-			hashes[c.Mod.PkgPath(p)], hashable[c.Mod.PkgPath(p)] = h, ok
+			h, ok := dirHash(p.dir)
+			hashes[p.path], hashable[p.path] = h, ok
 		}
 		var wantInvoked []string
 		wantFail := false
 		if all {
 			for _, p := range loaded {
-				pp := c.Mod.PkgPath(p)
+				pp := p.path
 				changed := force || recorded == nil || !hashable[pp] || recorded[pp] != hashes[pp]
 				if _, has := recorded[pp]; !has {
 					changed = true
@@ -258,7 +297,7 @@ func oracleC08(c c8Case) error {
 					continue
 				}
 				wantInvoked = append(wantInvoked, pp)
-				if failing != nil && p == failing {
+				if failing != nil && p.pkg == failing {
 					wantFail = true
 					break
 				}
@@ -303,9 +342,8 @@ func oracleC08(c c8Case) error {
 		if all && !wantFail {
 			want := map[string]string{}
 			for _, p := range loaded {
-				pp := c.Mod.PkgPath(p)
-				if hashable[pp] {
-					want[pp] = hashes[pp]
+				if hashable[p.path] {
+					want[p.path] = hashes[p.path]
 				}
 			}
 			if errAfter != nil {
@@ -368,6 +406,21 @@ func oracleC08(c c8Case) error {
 		case "addnested":
 			_ = os.MkdirAll(filepath.Join(pd, "data", "deep"), 0o755)
 			_ = os.WriteFile(filepath.Join(pd, "data", "deep", fmt.Sprintf("f%d.json", st.Arg%2)), []byte(fmt.Sprintf("{\"step\":%d}\n", si)), 0o644)
+		case "addpkg":
+			if len(w.extras) < 2 {
+				e := fmt.Sprintf("x%d", si)
+				_ = os.MkdirAll(filepath.Join(dir, e), 0o755)
+				_ = os.WriteFile(filepath.Join(dir, e, "x.go"), []byte(fmt.Sprintf("package %s\n\ntype TX%d struct{ A int }\n", e, si)), 0o644)
+				w.extras = append(w.extras, e)
+				w.writeExtraImports()
+			}
+		case "delpkg":
+			if len(w.extras) > 0 {
+				e := w.extras[len(w.extras)-1]
+				w.extras = w.extras[:len(w.extras)-1]
+				_ = os.RemoveAll(filepath.Join(dir, e))
+				w.writeExtraImports()
+			}
 		case "delsum":
 			_ = os.Remove(sumPath)
 		case "symlink":
@@ -525,7 +578,7 @@ func TestC08(t *testing.T) {
 		Level: "exploration",
 		Rule: "model-based: histories of 3-14 steps over a module of 2-4 packages (root package, nested package a/sub): edit/add/delete a Go file, add/edit/delete " +
 			"a non-Go file, add a file in a nested directory, delete gengo.sum, corrupt it (empty, garbage, truncated at any byte, stale hash, extra columns, " +
-			"dropped line, swapped hashes, duplicate line, CRLF, no final newline, blank hash, comment line), add/remove an unhashable entry (dangling symlink), " +
+			"dropped line, swapped hashes, duplicate line, CRLF, no final newline, blank hash, comment line), add/remove an unhashable entry (dangling symlink), add a new package / remove it again (imported by the entry package), " +
 			"run(All), run(All,Force), run whose generator fails in package p, run on a subset entry, run without All; then 3 runs on unchanged inputs. The model " +
 			"keeps nothing but the files: before each run it hashes every loaded package directory itself (x/mod dirhash cross-checked by a re-implementation of " +
 			"h1) and parses gengo.sum with its own reader; non-trivial = a run after a mutation that follows a run, or a corruption, or Force; distinct by JSON",
@@ -537,6 +590,6 @@ func TestC08(t *testing.T) {
 	defer r.Finish()
 	ev.Search(r, ev.Sub[c8Case]{
 		Name: "history", Gen: genC08, Oracle: oracleC08, NonTrivial: c8NonTrivial, Classes: c8Features,
-		Budget: ev.Budget{Quick: 60, Thorough: 1200}, MinNonTrivial: 0.5,
+		Budget: ev.Budget{Quick: 150, Thorough: 1500}, MinNonTrivial: 0.5,
 	})
 }
